@@ -210,11 +210,24 @@ func (s *Sched) Me() *Task {
 	return nil
 }
 
-//go:norace
-func (s *Sched) getHazard() bool { return s.hazard }
+func (s *Sched) getHazard() bool { return s.H.Hazard() }
 
-//go:norace
-func (s *Sched) setHazard() { s.hazard = true }
+func (s *Sched) setHazard() {
+	if !s.H.Hazard() {
+		s.H.SetHazard(s.whoAmI)
+	}
+}
+
+// whoAmI identifies the calling goroutine's task by goroutine id (-1: none).
+func (s *Sched) whoAmI() int {
+	id := curGoid()
+	for _, t := range s.Tasks {
+		if t.getGoid() == id {
+			return t.ID
+		}
+	}
+	return -1
+}
 
 //go:norace
 func (t *Task) getGoid() uint64 { return t.goid }
